@@ -126,24 +126,7 @@ def fmtBuilt (r : PyRes Cmd) : String :=
 def optNat (s : String) : Option (Option Nat) := if s == "-" then some none else (parseNat? s).map some
 
 /-- keyword combinations of `_Event.__init__` -/
-def eventSrcOfKw (sa inum ig dg : Option Nat) : PyRes EventSrc :=
-  match sa with
-  | some sa =>
-      if dg.isSome then .error .ValueError else if ig.isSome then .error .ValueError else
-      match inum with
-      | none => .ok (.device sa)
-      | some n => .ok (.deviceInstance sa n)
-  | none =>
-    match dg with
-    | some g => if inum.isSome then .error .ValueError else if ig.isSome then .error .ValueError
-        else .ok (.deviceGroup g)
-    | none =>
-      match ig with
-      | some g => if inum.isSome then .error .ValueError else .ok (.instanceGroup g)
-      | none =>
-        match inum with
-        | some n => .ok (.inst n)
-        | none => .error .ValueError
+def eventSrcOfKw := constructEventSrc
 
 def buildEvent (cls : String) (src : EventSrc) (data : String) : PyRes Cmd :=
   match Gen.tables.pushEvents.find? (fun e => e.2.name == cls) with
